@@ -61,6 +61,18 @@ F('string_view_to_term_value', r'constexpr static value_variant_type string_view
    Call(r'return value_variant_type', 'return ({args})', name='R13:variant construction'), Call(r'\bterm_value_type', 'vx_mk_term_value({args})', name='R13:term_value<VT>(v, sp)'),
    S(r'\bt\.get_ftor\(\)\(sv\)', 'vx_apply_ftor(vx_Term__get_ftor(t), sv)', name='R13:functor call')])
 
+def root_rule_fragment(body):
+    """the call that files the augmented rule `## <- root`: its length is the length of the index_sequence it is given"""
+    m = re.search(r'analyze_rule<root_rule_idx>\(detail::fake_root<value_type_t<root_nterm_type>>\{\}\(root\), std::index_sequence<([\d,\s]+)>\{\}\);', body)
+    if not m:
+        raise Exception('analyze_rules: the call for the augmented rule was not found')
+    n = len([x for x in m.group(1).split(',') if x.strip()])
+    return ('{ size_t vx_n = %d; __CPROVER_assert(vx_n <= max_rule_element_count, "glue/root-rule: the augmented rule ## <- root fits the row length of the rule tables (C12: tables sized from the grammar)");'
+            ' __CPROVER_assert(root_rule_idx < rule_count, "glue/root-rule: the augmented rule has a row"); }' % n)
+
+
+F('vx_root_rule_fits', r'constexpr void analyze_rules\(std::index_sequence<I\.\.\.>, const root_nterm_type& root\)', 'void vx_root_rule_fits(void)', fragment=root_rule_fragment)
+
 # the contracts of calculate_rule_* are the ones they are proved against in unit state_analyzer (same text, read from that spec)
 _sa = load_spec(os.path.join(HERE, '..', 'contracts', 'state_analyzer.spec'))
 CALC = ''.join('%s\n%s;\n' % (sig, _sa[n]['contract'].strip()) for n, sig in (
@@ -81,3 +93,19 @@ UNIT.facts = PC.FACTS + [r'str_table<term_count> term_ids = \{\};', r'str_table<
                          r'string_view_to_term_value_t term_ftors\[term_count\] = \{\};']
 UNIT.typedefs = PC.RT_TYPEDEFS
 apply_spec(UNIT.fns, os.path.join(HERE, '..', 'contracts', 'glue.spec'))
+
+from vx import native as _N
+
+
+def _twin_root_rule(o):
+    return """// vx-witness: mode=compile-fails
+// native replay: a grammar whose user rules are all empty must still build at compile time (the augmented rule ## <- root has one element)
+#include <ctpg/ctpg.hpp>
+using namespace ctpg;
+constexpr nterm<int> root("root");
+constexpr parser p(root, terms('x'), nterms(root), rules(root() >= []() { return 0; }));
+int main() { return 0; }
+"""
+
+
+UNIT.fn('vx_root_rule_fits').twin = _twin_root_rule
